@@ -4,7 +4,7 @@ CONSTANTS
   Tag <- TagAC
   RevTag <- RevAC
   DaySteps <- Days6
-  ReadFaultKinds <- RF_corrupt
+  ReadFaultKinds <- RF_all
   Delta = 10
   AgeCap = 91
   MaxRefresh = 6
